@@ -57,408 +57,16 @@ def feature_loop(ctx, f):
     ctx.require(False, "no loop over the lines parameter in %s" % f.qual)
 
 
-def _presence(test, is_attrs):
-    """True: the test holds when the Parent attribute is present; False: when it is absent; None: unrelated.
-    is_attrs(expr) says whether expr denotes the feature or its attribute mapping."""
-    if isinstance(test, ast.UnaryOp) and isinstance(test.op, ast.Not):
-        p = _presence(test.operand, is_attrs)
-        return None if p is None else not p
-    if isinstance(test, ast.Compare) and len(test.ops) == 1 and isinstance(test.ops[0], (ast.In, ast.NotIn)) and const_str(test.left) == "Parent":
-        c = test.comparators[0]
-        if isinstance(c, ast.Call) and call_attr(c) == "keys":
-            c = c.func.value
-        if is_attrs(c):
-            return isinstance(test.ops[0], ast.In)
-    if isinstance(test, ast.Call) and call_attr(test) == "get" and test.args and const_str(test.args[0]) == "Parent" and is_attrs(test.func.value):
-        return True
-    return None
 
 
-def r1(ctx, sch):
-    """Level-1 relations = {(p, f.id, 1) | f a stored feature, p a value of f's Parent attribute}: decided on value
-    provenance (which values reach the bound columns, through helpers and temporaries) and on the loop body's CFG
-    (every path on which the feature row was written passes the relation writer or a Parent-absence edge; the id
-    is final before the writer)."""
-    from ..flow import Flow, show
-    from ..util import closure
-    from .. import sqlbind
-    f = gff_populate(ctx)
-    loop, fv = feature_loop(ctx, f)
-    pool = closure(ctx, f)
-    fl = Flow(ctx, pool)
-    lines = [p for p in f.params if p != "self"][0]
-    FEATURE = ("elem", ("param", f.qual, lines))
-    ATTRS = {("attr", FEATURE, "attributes"), FEATURE}
-    PVALUE = {("item", a, "Parent") for a in ATTRS}
-
-    def is_attrs_in(func):
-        return lambda e: fl.terms(e, func) <= ATTRS
-    sites = [s for s in execute_sites(ctx, pool) if s.stmts and any(st.verb == "INSERT" and st.table.lower() == "relations" for st in s.stmts)]
-    ctx.floor("R1", len(sites), 1, "relation INSERT sites reachable from the GFF importer")
-    cores = {}   # func qual -> set of CFG node ids through which Parent relations are written
-    for s in sites:
-        st = s.stmts[0]
-        g = s.func
-        try:
-            rows = sqlbind.bound_rows(s, sch, g)
-        except sqlbind.Unbound as e:
-            ctx.ob("R1", False, "the relation row's columns are bound to determinable values", node=s.call, func=g, sig="relation insert arguments not determinable: %s" % e)
-            continue
-        ctx.ob("R1", st.or_clause == "ignore", "first-level relations are inserted OR IGNORE (repeated Parent values are harmless)",
-               node=s.call, func=g, sig="relation insert conflict clause: %s" % (st.or_clause or "none"))
-        cond = getattr(st, "select", None) is not None and (st.select.where is not None or st.select.source is not None)
-        ctx.ob("R1", not cond, "the relation row is written unconditionally (a dangling Parent still creates its relation row)", node=s.call, func=g,
-               sig="relation insert is unconditional" if not cond else "relation insert is an INSERT ... SELECT with a condition", nontrivial=False)
-        for bind, _loops in rows:
-            have = {k for k in bind if isinstance(k, str)}
-            ctx.ob("R1", {"parent", "child", "level"} <= have, "the relation row binds (parent, child, level)", node=s.call, func=g,
-                   sig="relation insert binds %s" % ",".join(sorted(have)))
-            if not {"parent", "child", "level"} <= have:
-                continue
-
-            def terms_of(v):
-                if isinstance(v, tuple) and v and v[0] == "sql":
-                    return {("const", v[1][1])} if v[1][0] in ("num", "str") else {("unknown", S.show(v[1]))}
-                return fl.terms(v, g)
-            lv, pt, ct = terms_of(bind["level"]), terms_of(bind["parent"]), terms_of(bind["child"])
-            ctx.ob("R1", lv == {("const", 1)}, "a Parent attribute creates a level-1 relation", node=s.call, func=g,
-                   sig="Parent relation level: %s" % ", ".join(sorted(show(t) for t in lv)))
-            okp = bool(pt) and all(t[0] == "elem" and t[1] in PVALUE for t in pt)
-            ctx.ob("R1", okp, "the parent column is bound to each value of the feature's whole Parent attribute", node=s.call, func=g,
-                   sig="relation parent <- %s" % ", ".join(sorted(show(t) for t in pt)))
-            okc = ct == {("attr", FEATURE, "id")}
-            ctx.ob("R1", okc, "the child column is bound to this feature's id", node=s.call, func=g,
-                   sig="relation child <- %s" % ", ".join(sorted(show(t) for t in ct)))
-        # the construct through which the writer is passed: the outermost loop over the Parent values, else the statement
-        cfg = cfg_of(g)
-        core = stmt_of(s.call)
-        for p in parents(s.call):
-            if p is g.node:
-                break
-            if isinstance(p, ast.For) and fl.terms(p.iter, g) <= PVALUE:
-                core = p
-        cn = cfg.node_for(core) if not isinstance(core, ast.For) else cfg.by_stmt.get(id(core))
-        ctx.require(cn is not None, "relation insert has no CFG node")
-        if isinstance(core, ast.For):
-            # inside the loop over the Parent values every pass reaches the insert
-            sn = cfg.node_for(s.call)
-            latch = [n.id for n in cfg.nodes if n.kind == "latch" and any(m == cn.id for m, _l in cfg.succ[n.id])]
-            seen_, stack_ = set(), [m for m, lab in cfg.succ[cn.id] if lab == "true"]
-            skip = False
-            while stack_:
-                n_ = stack_.pop()
-                if n_ in seen_ or n_ == sn.id:
-                    continue
-                seen_.add(n_)
-                if n_ in latch or n_ == cn.id:
-                    skip = True
-                    break
-                for m, lab in cfg.succ[n_]:
-                    if lab not in ("exc", "raise"):
-                        stack_.append(m)
-            ctx.ob("R1", not skip, "every value of the Parent attribute gets its relation row (no pass of the value loop skips the insert)", node=s.call, func=g,
-                   sig="every Parent value reaches the insert" if not skip else "a pass of the Parent value loop skips the relation insert")
-        cores.setdefault(g.qual, set()).add(cn.id)
-    # lift through helpers: a call statement of a function with cores is a core of its caller
-    changed = True
-    rounds = 0
-    while changed and rounds < 6:
-        changed = False
-        rounds += 1
-        for g in pool:
-            for c in calls_in(g.node, own=True):
-                fs, _d = ctx.proj.resolve_call(c, g)
-                if any(h.qual in cores and h.qual != g.qual for h in fs):
-                    n_ = cfg_of(g).node_for(c)
-                    if n_ is not None and n_.id not in cores.setdefault(g.qual, set()):
-                        cores[g.qual].add(n_.id)
-                        changed = True
-    ctx.ob("R1", f.qual in cores, "the GFF importer's line loop reaches the relation writer", func=f,
-           sig="relation writer reachable from the line loop" if f.qual in cores else "line loop never reaches a relation insert")
-    if f.qual not in cores:
-        return
-    by_qual = {g.qual: g for g in pool}
-
-    def bypass_edges(g):
-        """(node id, label) of test edges asserting that the feature has no Parent attribute."""
-        cfg = cfg_of(g)
-        out = set()
-        for n in cfg.nodes:
-            if n.kind == "test":
-                pol = _presence(n.stmt.test, is_attrs_in(g))
-                if pol is not None:
-                    out.add((n.id, "false" if pol else "true"))
-        return out
-    # helpers: from entry to exit every path passes the writer or a Parent-absence edge
-    for q, ids in cores.items():
-        g = by_qual[q]
-        if g is f:
-            continue
-        cfg = cfg_of(g)
-        byp = bypass_edges(g)
-        seen, stack = set(), [cfg.entry.id]
-        leak = False
-        while stack:
-            n = stack.pop()
-            if n in seen or n in ids:
-                continue
-            seen.add(n)
-            if n == cfg.exit.id:
-                leak = True
-                break
-            for m, lab in cfg.succ[n]:
-                if (n, lab) in byp or lab == "exc":
-                    continue
-                stack.append(m)
-        ctx.ob("R1", not leak, "in a helper that writes the Parent relations every normal path passes the writer unless the feature has no Parent attribute",
-               func=g, sig="%s: writer on every path" % g.name if not leak else "%s: a path returns without writing the relations" % g.name)
-    # root: inside the line loop
-    cfg = cfg_of(f)
-    ids = cores[f.qual]
-    ln = cfg.by_stmt.get(id(loop))
-    body = set()
-    for n in cfg.nodes:
-        if n.stmt is not None and n.id != ln.id and any(n.stmt is x for b in loop.body for x in ast.walk(b)):
-            body.add(n.id)
-    for n in cfg.nodes:
-        if n.kind == "latch" and any(m in body for m, _l in cfg.succ[n.id]):
-            body.add(n.id)
-    inside = [i for i in ids if i in body]
-    ctx.ob("R1", bool(inside), "the relation writer runs inside the loop over the lines", func=f,
-           sig="relation writer inside the line loop" if inside else "relation writer outside the line loop")
-    # statements that write the feature row: direct executes on `features` and calls whose closure contains one
-    writers = set()
-    feat_sites = [s for s in execute_sites(ctx, pool) if s.stmts and any(st.verb in ("INSERT", "UPDATE", "REPLACE") and st.table.lower() == "features" for st in s.stmts)]
-    wfuncs = {s.func.qual for s in feat_sites}
-    grow = True
-    while grow:
-        grow = False
-        for g in pool:
-            if g.qual in wfuncs:
-                continue
-            for c in calls_in(g.node, own=True):
-                fs, _d = ctx.proj.resolve_call(c, g)
-                if any(h.qual in wfuncs for h in fs) and g is not f:
-                    wfuncs.add(g.qual)
-                    grow = True
-                    break
-    for s in feat_sites:
-        if s.func is f:
-            n_ = cfg.node_for(s.call)
-            if n_ is not None:
-                writers.add(n_.id)
-    for c in calls_in(f.node, own=True):
-        fs, _d = ctx.proj.resolve_call(c, f)
-        if any(h.qual in wfuncs for h in fs):
-            n_ = cfg.node_for(c)
-            if n_ is not None:
-                writers.add(n_.id)
-    ctx.floor("R1", len([w for w in writers if w in body]), 1, "feature-row writes in the line loop")
-    byp = bypass_edges(f)
-    start = [(m, False) for m, lab in cfg.succ[ln.id] if lab == "true"]
-    seen, stack = set(), list(start)
-    leak = None
-    while stack:
-        n, written = stack.pop()
-        if (n, written) in seen or n in ids:
-            continue
-        seen.add((n, written))
-        if n not in body:
-            if written and n != cfg.raise_exit.id:
-                leak = n
-                break
-            continue
-        for m, lab in cfg.succ[n]:
-            if (n, lab) in byp:
-                continue
-            stack.append((m, written or (n in writers and lab != "exc")))
-    ctx.ob("R1", leak is None, "every pass of the line loop that stored the feature row passes the relation writer (or a Parent-absence edge) before the next line",
-           func=f, sig="stored features always reach the relation writer" if leak is None else
-           "a path stores the feature row and leaves the iteration without writing its Parent relations")
-    # the id is final: assigned before the writer, never changed after it within the iteration
-    idops = set()
-    idfuncs = set()
-    for g in pool:
-        if any(isinstance(n, (ast.Assign, ast.AugAssign)) and any(isinstance(t, ast.Attribute) and t.attr == "id" and not is_name(t.value, "self")
-                                                                for t in (n.targets if isinstance(n, ast.Assign) else [n.target])) for n in walk_own_(g)):
-            idfuncs.add(g.qual)
-    for n in cfg.nodes:
-        if n.id not in body or n.stmt is None or n.kind != "stmt":
-            continue
-        st = n.stmt
-        if isinstance(st, ast.Assign) and any(isinstance(t, ast.Attribute) and t.attr == "id" and fl.terms(t.value, f) <= {FEATURE} for t in st.targets):
-            idops.add(n.id)
-            continue
-        for c in [x for x in ast.walk(st) if isinstance(x, ast.Call)]:
-            fs, _d = ctx.proj.resolve_call(c, f)
-            if any(h.qual in idfuncs for h in fs) and any(fl.terms(a, f) <= {FEATURE} for a in list(c.args) + [k.value for k in c.keywords]):
-                idops.add(n.id)
-    ctx.floor("R1", len(idops), 1, "operations in the line loop that may set the feature's id")
-    for core_id in inside:
-        dom = any(cfg.dominates(i, core_id) and i != core_id for i in idops)
-        ctx.ob("R1", dom, "the id is assigned before the relation row is written", func=f, node=cfg.nodes[core_id].stmt,
-               sig="id assignment dominates the relation writer" if dom else "relation writer not dominated by an id assignment")
-        after = cfg.reachable(core_id, avoid={ln.id}) & idops
-        after.discard(core_id)
-        ctx.ob("R1", not after, "the feature's id cannot change after its relation rows were written (collision handling, which may rename it, comes first)",
-               func=f, node=cfg.nodes[core_id].stmt,
-               sig="no id-affecting operation after the relation writer" if not after else
-               "id-affecting operation at line %s follows the relation writer" % min(cfg.nodes[i].lineno for i in after))
 
 
-def walk_own_(g):
-    from ..model import walk_own
-    return walk_own(g.node)
 
 
-def r2(ctx, sch):
-    c = ctx.proj.cls("create._GFFDBCreator")
-    f = ctx.proj.method(c, "_update_relations")
-    ctx.require(f is not None and f.cls is c, "anchor vanished: _GFFDBCreator._update_relations")
-    ctx.touch(f)
-    from ..util import closure
-    pool = closure(ctx, f)
-    sites = execute_sites(ctx, pool)
-    sel = [s for s in sites if s.stmts and s.stmts[0].verb == "SELECT" and s.stmts[0].tables().count("relations") >= 1
-           and "relations" in s.stmts[0].tables()]
-    ctx.floor("R2", len(sel), 1, "closure SELECTs over relations in the GFF importer")
-    spec = S.to_cq(S.parse(SPEC_L2), sch)
-    spec_nolevel = S.to_cq(S.parse(SPEC_L2_NOLEVEL), sch)
-    for s in sel:
-        try:
-            got = S.to_cq(s.stmts[0], sch, {0: "p"})
-        except S.SQLError as e:
-            ctx.ob("R2", False, "the level-2 SELECT normalises to a conjunctive query", node=s.call, func=f,
-                   sig="level-2 SELECT not normalisable: %s" % e)
-            continue
-        ok = S.cq_equivalent(got, spec)
-        if ok:
-            sig = "level-2 SELECT ≅ composition of two level-1 edges"
-        elif S.cq_equivalent(got, spec_nolevel):
-            sig = "level-2 SELECT composes relation rows of any level (no level = 1 on the composed edges)"
-        else:
-            sig = "level-2 SELECT is not the composition query: " + got.describe()
-        ctx.ob("R2", ok, "grandchildren of $p = { R2.child | R1.parent=$p, R1.level=1, R2.parent=R1.child, R2.level=1 }",
-               node=s.call, func=f, sig=sig,
-               detail=None if ok else "composing rows of every level invents relations when level-2 rows already exist "
-                                      "(FeatureDB.update on a database with a depth-3 chain)")
-    _r2_rowflow(ctx, f, pool, sites, sel, sch)
 
 
-def _find(term, pred):
-    """First sub-term satisfying pred (pre-order)."""
-    is_term = isinstance(term, tuple) and term and isinstance(term[0], str)
-    if is_term and pred(term):
-        return term
-    if isinstance(term, tuple):
-        for x in (term[1:] if is_term else term):
-            if isinstance(x, tuple):
-                r = _find(x, pred)
-                if r is not None:
-                    return r
-    return None
 
 
-def _r2_rowflow(ctx, f, pool, sites, sel, sch):
-    """The pairs (feature id, grandchild id) computed by the level-2 SELECT reach the level-2 INSERT as
-    (parent, child, 2): decided on value provenance -- what the writer joins into a line, how the reader splits it,
-    and which columns the split fields are bound to -- whatever names, tuple unpackings or row containers are used."""
-    from ..flow import Flow, show
-    from .. import sqlbind
-    fl = Flow(ctx, pool)
-    ins = [s for s in sites if s.stmts and s.stmts[0].verb == "INSERT" and s.stmts[0].table.lower() == "relations"]
-    ctx.floor("R2", len(ins), 1, "level-2 INSERT sites")
-    # ---- the driver: $p of the level-2 SELECT is column 0 of each row of `SELECT id FROM features`
-    idsel = [x for x in sites if x.stmts and x.stmts[0].verb == "SELECT" and x.stmts[0].tables() == ["features"]
-             and len(x.stmts[0].cols) == 1 and x.stmts[0].cols[0][0][0] == "col" and x.stmts[0].cols[0][0][2].lower() == "id"
-             and x.stmts[0].where is None]
-    key_of = lambda x: ("row", (x.func.qual, x.call.lineno, x.call.col_offset))
-    id_rows = {key_of(x) for x in idsel}
-    for s in sel:
-        pt = fl.terms(s.params, s.func) if s.params is not None else set()
-        # the whole row of the id query, or a 1-tuple of its first column
-        ok = bool(pt) and all(
-            t in id_rows or (t[0] == "op" and t[1] in ("tuple", "list") and len(t) == 3 and t[2][0] == "pos" and t[2][2] == 0 and t[2][1] in id_rows)
-            for t in pt)
-        ctx.ob("R2", ok and len(idsel) >= 1, "the closure is computed for every stored feature id", node=s.call, func=s.func,
-               sig="closure driven by SELECT id FROM features" if ok and idsel else "closure not driven by every feature id (bound to %s)" % ", ".join(sorted(show(t) for t in pt)))
-    ID0 = {("pos", r, 0) for r in id_rows}
-    GC0 = {("pos", key_of(s), 0) for s in sel}
-    # ---- the writer: one line per pair, <feature id> SEP <grandchild id>
-    writes = [(g, c) for g in pool for c in calls_in(g.node) if call_attr(c) == "write" and c.args]
-    ctx.floor("R2", len(writes), 1, "writes of closure pairs")
-    seps = set()
-    handles = set()
-    for g, w in writes:
-        ts = fl.terms(w.args[0], g)
-        joins = [_find(t, lambda x: isinstance(x, tuple) and x[0] == "call" and x[1] == "join" and x[2] is not None and x[2][0] == "const") for t in ts]
-        ok = bool(joins) and all(j is not None and len(j[3]) == 1 and j[3][0][0] == "op" and j[3][0][1] in ("tuple", "list") and len(j[3][0]) == 4 and
-                                 j[3][0][2] in ID0 and j[3][0][3] in GC0 for j in joins)
-        ctx.ob("R2", ok, "each closure line is (feature id, grandchild id)", node=w, func=g,
-               sig="closure line fields (feature id, grandchild id)" if ok else "closure line is %s" % ", ".join(sorted(show(t) for t in ts)))
-        for j in joins:
-            if j is not None:
-                seps.add(j[2][1])
-        handles |= fl.terms(w.func.value, g)
-    # ---- the reader and the insert
-    for s in ins:
-        st = s.stmts[0]
-        ctx.ob("R2", st.or_clause == "ignore", "level-2 rows are inserted OR IGNORE", node=s.call, func=s.func, sig="level-2 insert conflict clause: %s" % (st.or_clause or "none"))
-        try:
-            rows = sqlbind.bound_rows(s, sch, s.func)
-        except sqlbind.Unbound as e:
-            ctx.ob("R2", False, "the level-2 row's columns are bound to determinable values", node=s.call, func=s.func, sig="level-2 insert arguments not determinable: %s" % e)
-            continue
-        for bind, loops in rows:
-            g = s.func
-            for kind, who in loops:
-                if kind == "gen":
-                    g = who
-                    ctx.touch(g)
-            have = {k for k in bind if isinstance(k, str)}
-            if not {"parent", "child", "level"} <= have:
-                ctx.ob("R2", False, "the level-2 row binds (parent, child, level)", node=s.call, func=g, sig="level-2 insert binds %s" % ",".join(sorted(have)))
-                continue
-
-            def terms_of(v):
-                if isinstance(v, tuple) and v and v[0] == "sql":
-                    return {("const", v[1][1])} if v[1][0] in ("num", "str") else {("unknown", S.show(v[1]))}
-                return fl.terms(v, g)
-            pt, ct, lt = terms_of(bind["parent"]), terms_of(bind["child"]), terms_of(bind["level"])
-            okl = lt == {("const", 2)}
-            ctx.ob("R2", okl, "composed rows are stored at level 2", node=s.call, func=g, sig="closure reader level=%s" % ", ".join(sorted(show(t) for t in lt)))
-
-            def field(ts, i):
-                """every term is position i of a split of a line of the file; returns the split terms"""
-                out = set()
-                for t in ts:
-                    if not (t[0] == "pos" and t[2] == i and t[1][0] == "call" and t[1][1] in ("split", "rsplit")):
-                        return None
-                    out.add(t[1])
-                return out
-            sp, sc = field(pt, 0), field(ct, 1)
-            ok = sp is not None and sc is not None and sp == sc and len(sp) == 1
-            ctx.ob("R2", ok, "the reader maps field 1 to parent and field 2 to child", node=s.call, func=g,
-                   sig="closure reader row parent=field 1, child=field 2" if ok else "closure reader row parent=%s child=%s" % (
-                       ", ".join(sorted(show(t) for t in pt)), ", ".join(sorted(show(t) for t in ct))))
-            if ok:
-                sp_ = next(iter(sp))
-                rsep = sp_[3][0][1] if sp_[3] and sp_[3][0][0] == "const" else None
-                ctx.ob("R2", rsep in seps and len(seps) == 1, "writer and reader agree on the field separator", node=s.call, func=g,
-                       sig="closure file separator %r / %r" % (sorted(seps), rsep), nontrivial=False)
-                # the line read comes from the file the writer wrote
-                opened = _find(sp_, lambda x: isinstance(x, tuple) and x[0] == "call" and x[1] in ("open", "io.open", "os.fdopen"))
-                same = False
-                if opened is not None and opened[3]:
-                    rp = opened[3][0]
-                    for h in handles:
-                        hcall = _find(h, lambda x: isinstance(x, tuple) and x[0] == "call")
-                        wp = hcall[3][0] if hcall is not None and hcall[3] else None
-                        if rp == wp or rp == ("attr", h, "name") or (rp[0] == "pos" and wp is not None and wp[0] == "pos" and rp[1] == wp[1]) or \
-                                (hcall is not None and rp == ("attr", hcall, "name")):
-                            same = True
-                ctx.ob("R2", same, "the reader reads the file the closure pairs were written to", node=s.call, func=g,
-                       sig="closure reader opens the writer's file" if same else "closure reader opens %s" % (show(opened) if opened else "nothing recognisable"), nontrivial=False)
 
 
 def r3(ctx):
